@@ -108,13 +108,13 @@ class Check(core.PropertyCheck):
         return core.Scenario({"proto": proto, "plan": plan, "ops": ops}, predicted=pred, source=source)
 
     def scenarios(self, ctx, models):
-        for m, cap in zip(models[:2], (1200, 2800)):
+        for m, cap in zip(models[:2], (900, 2300)):
             g = m.graph
             behs = g.edge_cover(ctx.rng, max_len=24, tail=12)
             ctx.notes.setdefault("edge_cover_paths", []).append(len(behs))
             if ctx.quick and len(behs) > cap:
                 behs = ctx.rng.sample(behs, cap)
-            behs += g.random_walks(ctx.rng, 200 if ctx.quick else 4000, 20)
+            behs += g.random_walks(ctx.rng, 150 if ctx.quick else 4000, 20)
             for b in behs:
                 yield self._scenario(b)
         if not ctx.quick:
@@ -125,7 +125,7 @@ class Check(core.PropertyCheck):
                 for b in behs:
                     yield self._scenario(b, "simulate")
         rng = random.Random(ctx.seed + 11)
-        for _ in range(900 if ctx.quick else 15000):
+        for _ in range(700 if ctx.quick else 15000):
             proto = rng.choice(RAW + PAIRED)
             yield core.Scenario({"proto": proto, "plan": None, "ops": None, "seed": rng.randrange(1 << 30),
                                  "n": rng.randint(3, 7) if proto in RAW else 2 * rng.randint(2, 4)}, source="random")
